@@ -3,6 +3,8 @@ Operations that only need the specifications (never the generated tables or the 
 These are what the spec-only fallback driver can still answer when `Gmsm/Gen` no longer builds.
 -/
 import Gmsm.Spec.SM4
+import Gmsm.Spec.SM3
+import Gmsm.Spec.HMAC
 namespace Driver
 open Gmsm
 
@@ -16,9 +18,59 @@ def sm4blk (args : List String) : String :=
   | _ => "bad-op"
 
 
+/-- deterministic byte stream shared with the Go harness (splitmix64) -/
+def sm64next (s : UInt64) : UInt64 × UInt64 :=
+  let s := s + 0x9e3779b97f4a7c15
+  let z := s
+  let z := (z ^^^ (z >>> 30)) * 0xbf58476d1ce4e5b9
+  let z := (z ^^^ (z >>> 27)) * 0x94d049bb133111eb
+  (s, z ^^^ (z >>> 31))
+
+def prngBytes (seed : Nat) (n : Nat) : Bytes := Id.run do
+  let mut s : UInt64 := UInt64.ofNat seed * 0x9e3779b97f4a7c15 + 0x1234567
+  let mut out : Array Byte := Array.mkEmpty n
+  for _ in [0:n] do
+    let (s', z) := sm64next s
+    s := s'
+    out := out.push (BitVec.ofNat 8 z.toNat)
+  return out.toList
+
+def sm3sum (args : List String) : String :=
+  match args with
+  | [m] => match ofHex m with
+    | some m => toHex (Spec.SM3.hash m)
+    | none => "bad-op"
+  | _ => "bad-op"
+
+/-- `sm3big <seed> <len> <chunk>…` : digest of a PRNG stream (chunking is irrelevant to the spec) -/
+def sm3big (args : List String) : String :=
+  match args with
+  | seed :: len :: _ =>
+    match seed.toNat?, len.toNat? with
+    | some s, some n => toHex (Spec.SM3.hash (prngBytes s n))
+    | _, _ => "bad-op"
+  | _ => "bad-op"
+
+def hmacsm3 (args : List String) : String :=
+  match args.mapM ofHex with
+  | some [k, m] => toHex (Spec.HMAC.hmacSM3 k m)
+  | _ => "bad-op"
+
+def pbkdf2sm3 (args : List String) : String :=
+  match args with
+  | [pw, salt, iter, dk] =>
+    match ofHex pw, ofHex salt, iter.toNat?, dk.toNat? with
+    | some pw, some salt, some iter, some dk => toHex (Spec.HMAC.pbkdf2SM3 pw salt iter dk)
+    | _, _, _, _ => "bad-op"
+  | _ => "bad-op"
+
 def specDispatch (toks : List String) : Option String :=
   match toks with
   | "sm4blk" :: rest => some (sm4blk rest)
+  | "sm3sum" :: rest => some (sm3sum rest)
+  | "sm3big" :: rest => some (sm3big rest)
+  | "hmacsm3" :: rest => some (hmacsm3 rest)
+  | "pbkdf2sm3" :: rest => some (pbkdf2sm3 rest)
   | _ => none
 
 end Driver
